@@ -562,8 +562,13 @@ class Model(Object):
         """
         if not hasattr(metabolite_list, "__iter__"):
             metabolite_list = [metabolite_list]
-        # Make sure metabolites exist in model
-        metabolite_list = [x for x in metabolite_list if x.id in self.metabolites]
+        # Make sure metabolites exist in model (a metabolite listed twice is removed
+        # once)
+        present = []
+        for x in metabolite_list:
+            if x.id in self.metabolites and not any(x is y for y in present):
+                present.append(x)
+        metabolite_list = present
         for x in metabolite_list:
             x._model = None
 
